@@ -1,10 +1,14 @@
 import Driver.Loop
-import TrustfallModel.Model.QueryParse
+import TrustfallModel.Model.FrontendCheck
 /-!
 Driver commands of group `frontend` (C10).
 
 `(parse-doc <doc>)` answers `panic` | `ok` | `(err <ParseErrorVariant>)`: the outcome class of
 `graphql_query::query::parse_document` on the abstract document.
+`(compile-doc <schema-id> <view> <doc>)` answers `panic` | `ok` | `(err parse <Variant>)` |
+`(err frontend <Variant>…)`: the outcome class of `frontend::parse` minus the text parser
+(`parse_doc` + the `IndexedQuery` conversion) against the schema described by `<view>`; the
+`<schema-id>` only tells the harness which real schema to load.
 `(text-nopanic <hex>)` answers the constant `nopanic` (the byte-level stream explores the external
 text parser, which is not modelled; the implementation answers `nopanic` or `panic`).
 
@@ -20,6 +24,13 @@ sel   := (f <alias|~> <name> (<arg>…) (<dir>…) (<sel>…)) | (sp <name> (<di
 arg   := (<name> <value>)            dir := (d <name> (<arg>…))
 value := (v <name>) | n | (i <int>) | (fl <text>) | (s <str>) | (b 0|1) | (e <name>)
        | (l <value>…) | (o (<name> <value>)…)
+```
+Schema view (names are plain atoms: GraphQL identifiers):
+```
+view  := (schema <queryType> (<scalar>…) (<type>…))
+type  := (t <name> 0|1 (<implemented interface>…) (<field>…))       1 = interface
+field := (<name> <ty> (<param>…))        param := (<name> <ty> 0|1)  1 = has a default value
+ty    := (<base> <f0> <f1> …)            fi = 1 iff level i (outermost first) is nullable
 ```
 -/
 namespace TF.Driver
@@ -140,6 +151,50 @@ def toDoc : Sexp → Option Doc
   | _ => none
 
 def renderParseErr (e : ParseErr) : String := (repr e).pretty.replace "TF.FE.ParseErr." ""
+def renderFrontErr (e : FrontErr) : String := (repr e).pretty.replace "TF.FE.FrontErr." ""
+
+def toFTy : Sexp → Option FTy
+  | .list (.atom base :: .atom f0 :: flags) => do
+    let inner ← flags.mapM fun | .atom f => some (f == "1") | _ => none
+    pure ⟨base, f0 == "1", inner⟩
+  | _ => none
+
+def toParamDef : Sexp → Option ParamDef
+  | .list [.atom n, ty, .atom d] => do
+    let t ← toFTy ty
+    pure ⟨n, t, d == "1"⟩
+  | _ => none
+
+def toFieldDef : Sexp → Option FieldDef
+  | .list [.atom n, ty, .list params] => do
+    let t ← toFTy ty
+    let ps ← params.mapM toParamDef
+    pure ⟨n, t, ps⟩
+  | _ => none
+
+def toAtoms (l : List Sexp) : Option (List String) :=
+  l.mapM fun | .atom a => some a | _ => none
+
+def toTypeDef : Sexp → Option TypeDef
+  | .list [.atom "t", .atom n, .atom i, .list impls, .list fields] => do
+    let is ← toAtoms impls
+    let fs ← fields.mapM toFieldDef
+    pure ⟨n, i == "1", is, fs⟩
+  | _ => none
+
+def toSchemaView : Sexp → Option SchemaView
+  | .list [.atom "schema", .atom q, .list scalars, .list types] => do
+    let ss ← toAtoms scalars
+    let ts ← types.mapM toTypeDef
+    pure ⟨q, ss, ts⟩
+  | _ => none
+
+def renderCompile (r : Res CompileErr Unit) : String :=
+  match r with
+  | .ok _ => "ok"
+  | .err (.parse e) => s!"(err parse {renderParseErr e})"
+  | .err (.frontend es) => "(err frontend " ++ " ".intercalate (es.map renderFrontErr) ++ ")"
+  | .panic _ => "panic"
 
 def handleFrontend : String → List Sexp → Option String
   | "parse-doc", [d] => do
@@ -148,6 +203,17 @@ def handleFrontend : String → List Sexp → Option String
       | .ok _ => "ok"
       | .err e => s!"(err {renderParseErr e})"
       | .panic _ => "panic")
+  | "compile-doc", [.atom _, v, d] => do
+    let view ← toSchemaView v
+    let doc ← toDoc d
+    pure (renderCompile (compile view doc))
+  | "compile-site", [.atom _, v, d] => do
+    -- developer aid: the panic site
+    let view ← toSchemaView v
+    let doc ← toDoc d
+    pure (match compile view doc with
+      | .panic s => (repr s).pretty
+      | r => renderCompile r)
   | "text-nopanic", [.atom _] => some "nopanic"
   | _, _ => none
 
